@@ -263,6 +263,7 @@ HandlerResult(s, name, hasArg, arg) ==
       s1 == [s EXCEPT !.events = Append(@, ev), !.hmod = TRUE]
   IN CASE h = "identity" -> s1
        [] h = "dropnext" -> [s1 EXCEPT !.args = IF @ = <<>> THEN @ ELSE Tail(@)]
+       [] h = "dropall"  -> [s1 EXCEPT !.args = <<>>]                     \* returns a nil slice: nothing is left to parse
        [] h = "inject"   -> [s1 EXCEPT !.args = <<<<120>>>> \o @]          \* injects the plain word "x"
        [] h = "error"    -> [s1 EXCEPT !.err = Err("foreign", E), !.phase = "defaults"]
        [] OTHER -> s1
